@@ -1,12 +1,612 @@
-//! C01 - not implemented yet
-use crate::common::Report;
+//! C01 - the compiled protocol computes the same function as the source graph (global execution), and
+//! the shared engine that C02 (three-party execution) reuses.
+use crate::common::{catch, hash_str, Report, SplitMix};
+use crate::exec::{new_eval, run_global, Oracle, Plan, RealRandomness};
+use crate::gen::{self, Leaf, Recipe};
+use crate::mpcx::{self, Owner};
+use crate::vals;
+use ciphercore_base::data_types::Type;
+use ciphercore_base::data_values::Value;
+use ciphercore_base::evaluators::Evaluator;
+use ciphercore_base::graphs::{Context, Operation};
+use rayon::prelude::*;
+use serde_json::{json, Value as J};
+use std::collections::{BTreeMap, HashSet};
+use std::sync::Arc;
 
-pub fn run(_r: &Report) -> i32 {
-    println!("MACHINERY-ERROR property=C01 check not implemented");
-    2
+#[derive(Clone, Copy, PartialEq, Eq)]
+pub enum Which {
+    Global,
+    ThreeParty,
 }
 
-pub fn replay(_r: &Report, _rec: &serde_json::Value) -> i32 {
-    println!("MACHINERY-ERROR property=C01 replay not implemented");
-    2
+pub type Builder = Arc<dyn Fn() -> Result<Context, String> + Send + Sync>;
+
+#[derive(Clone)]
+pub struct Prog {
+    pub desc: String,
+    /// class used in violation signatures (set of operations)
+    pub class: String,
+    pub build: Builder,
+    /// how many owner vectors to cross (None = all 5^n)
+    pub owners: Option<Vec<Vec<Owner>>>,
+    /// output-party subsets to cross (None = all 8)
+    pub outs: Option<Vec<Vec<u8>>>,
+    /// custom input vectors (None = generated alphabet)
+    pub inputs: Option<Arc<dyn Fn() -> Vec<Vec<Value>> + Send + Sync>>,
+    /// an Err containing this text from the compiled evaluation is an allowed abort
+    pub allowed_abort: Option<&'static str>,
+}
+
+pub fn recipe_prog(r: &Recipe) -> Prog {
+    let rr = r.clone();
+    let mut ops: Vec<String> = r
+        .steps
+        .iter()
+        .map(|s| format!("{:?}", s).split('(').next().unwrap().to_string())
+        .collect();
+    ops.sort();
+    ops.dedup();
+    Prog {
+        desc: r.desc(),
+        class: ops.join("+"),
+        build: Arc::new(move || gen::build(&rr).map(|b| b.ctx)),
+        owners: None,
+        outs: None,
+        inputs: None,
+        allowed_abort: None,
+    }
+}
+
+/// PRF outputs replaced by a constant byte pattern (keys stay real): a degenerate but admissible tape.
+pub struct ConstPrf(pub u8);
+impl Oracle for ConstPrf {
+    fn prf(&mut self, _p: usize, _i: usize, _k: &[u8], _iv: u64, t: &Type) -> Option<Value> {
+        let b = self.0;
+        Some(vals::pattern_value(t, &mut || b))
+    }
+    fn perm_prf(&mut self, _p: usize, _i: usize, _k: &[u8], _iv: u64, n: u64) -> Option<Value> {
+        let v: Vec<u64> = if self.0 == 0 { (0..n).collect() } else { (0..n).rev().collect() };
+        Value::from_flattened_array_u64(&v, ciphercore_base::data_types::UINT64).ok()
+    }
+}
+
+pub fn tape_by_name(name: &str) -> Box<dyn Oracle> {
+    match name {
+        "prf-zero" => Box::new(ConstPrf(0)),
+        "prf-ones" => Box::new(ConstPrf(0xFF)),
+        _ => Box::new(RealRandomness),
+    }
+}
+
+pub struct Budget {
+    pub max_inputs: usize,
+    pub extra_seeds: u64,
+    pub tapes: Vec<&'static str>,
+    pub junk: Vec<&'static str>,
+    pub seed_sets: usize,
+}
+
+pub fn junk_source(name: &str, seed: u64) -> Box<dyn FnMut() -> u8> {
+    match name {
+        "zeros" => Box::new(|| 0u8),
+        "ones" => Box::new(|| 0xFFu8),
+        _ => {
+            let mut sm = SplitMix(seed ^ 0xA5A5_1234);
+            let mut buf: Vec<u8> = vec![];
+            Box::new(move || {
+                if buf.is_empty() {
+                    buf = sm.bytes(64);
+                }
+                buf.pop().unwrap()
+            })
+        }
+    }
+}
+
+fn vals_json(vs: &[Value]) -> J {
+    J::Array(vs.iter().map(|v| serde_json::to_value(v).unwrap()).collect())
+}
+fn vals_from_json(j: &J) -> Vec<Value> {
+    j.as_array()
+        .map(|a| a.iter().map(|x| serde_json::from_value::<Value>(x.clone()).unwrap()).collect())
+        .unwrap_or_default()
+}
+
+pub fn owners_json(o: &[Owner]) -> J {
+    J::Array(o.iter().map(|x| json!(x.name())).collect())
+}
+pub fn owners_from_json(j: &J) -> Vec<Owner> {
+    j.as_array()
+        .unwrap()
+        .iter()
+        .map(|x| match x.as_str().unwrap() {
+            "P0" => Owner::P(0),
+            "P1" => Owner::P(1),
+            "P2" => Owner::P(2),
+            "pub" => Owner::Public,
+            _ => Owner::Shared,
+        })
+        .collect()
+}
+
+/// One (program, owner vector) task: all output subsets x modes x inputs x tapes.
+fn run_task(r: &Report, which: Which, prog: &Prog, owners: &[Owner], b: &Budget) {
+    let id = &r.id;
+    let ctx = match (prog.build)() {
+        Ok(c) => c,
+        Err(_) => return,
+    };
+    let types = mpcx::input_types(&ctx);
+    let out_t = mpcx::output_type(&ctx);
+    let inputs: Vec<Vec<Value>> = match &prog.inputs {
+        Some(f) => f(),
+        None => gen::input_vectors(&types, b.max_inputs),
+    };
+    // expected plaintext results (library evaluator on the source graph)
+    let mut cases: Vec<(Vec<Value>, Value)> = vec![];
+    for iv in inputs {
+        if let Ok(e) = mpcx::eval_plain(&ctx, &iv, 1) {
+            cases.push((iv, e));
+        } else {
+            r.count("inputs_rejected_by_plain_evaluation", 1);
+        }
+    }
+    if cases.is_empty() {
+        return;
+    }
+    let src_txt = serde_json::to_string(&ctx).unwrap();
+    // If the three inline modes give one and the same compiled context for the first output subset, the computation
+    // part of this (program, owner vector) contains nothing the modes treat differently (the reveal step never
+    // does), so the remaining output subsets are compiled in the first mode only; the skipped ones are counted.
+    let mut mode_insensitive = false;
+    let all_outs = prog.outs.clone().unwrap_or_else(mpcx::output_subsets);
+    for (oi, outs) in all_outs.into_iter().enumerate() {
+        let mut seen_compiled: HashSet<u64> = HashSet::new();
+        for (mi, (mname, mode)) in mpcx::modes().into_iter().enumerate() {
+            r.count("configurations", 1);
+            if mode_insensitive && mi > 0 {
+                r.count("configurations_mode_skipped_as_insensitive", 1);
+                continue;
+            }
+            let compiled = match mpcx::compile(&ctx, owners, &outs, &mode) {
+                Ok(c) => c,
+                Err(e) => {
+                    if e.starts_with("panic") {
+                        r.violation(
+                            &format!("{}:{}:compile-panic", id, prog.class),
+                            &format!("compiler panics on {}: {}", prog.desc, e),
+                            json!({"context": src_txt, "owners": owners_json(owners), "outs": outs, "mode": mname, "kind": "compile"}),
+                        );
+                    }
+                    r.count("compile_rejected", 1);
+                    continue;
+                }
+            };
+            let ctxt = serde_json::to_string(&compiled).unwrap();
+            if !seen_compiled.insert(hash_str(&ctxt)) {
+                r.count("configurations_same_compiled_context_as_other_mode", 1);
+                if oi == 0 && mi == 2 && seen_compiled.len() == 1 {
+                    mode_insensitive = true;
+                }
+                continue;
+            }
+            r.count("distinct_compiled_contexts", 1);
+            r.distinct(hash_str(&ctxt));
+            let plan = match Plan::of_context(&compiled) {
+                Ok(p) => p,
+                Err(e) => {
+                    r.violation(
+                        &format!("{}:{}:not-inlined", id, prog.class),
+                        &format!("compiled context is not a fully inlined graph: {}", e),
+                        json!({"context": src_txt, "owners": owners_json(owners), "outs": outs, "mode": mname, "kind": "compile"}),
+                    );
+                    continue;
+                }
+            };
+            let n_prf = plan.nodes.iter().filter(|n| n.op.is_prf_operation()).count();
+            if n_prf > 0 {
+                r.count("compiled_contexts_with_prf_masks", 1);
+            }
+            if plan.nodes.iter().any(|n| !n.sends.is_empty()) {
+                r.count("compiled_contexts_with_sends", 1);
+            }
+            conformance(r, &compiled, &plan, &types, owners, &cases[0].0);
+            for (k, (iv, expected)) in cases.iter().enumerate() {
+                let mut runs: Vec<(u64, &'static str)> = vec![(11, "real")];
+                if k == 0 {
+                    for s in 0..b.extra_seeds {
+                        runs.push((100 + s + r.seed, "real"));
+                    }
+                    for t in b.tapes.iter() {
+                        runs.push((11, *t));
+                    }
+                }
+                for (seed, tape) in runs {
+                    match which {
+                        Which::Global => {
+                            let res = one_global(&plan, &types, owners, &outs, iv, expected, &out_t, seed, tape, prog);
+                            r.count("evaluations", 1);
+                            match res {
+                                Ok(true) => r.count("allowed_aborts", 1),
+                                Ok(false) => {}
+                                Err((kind, msg)) => r.violation(
+                                    &format!("{}:{}:{}", id, prog.class, kind),
+                                    &format!("{} | owners {:?} outs {:?} mode {} tape {}: {}", prog.desc, owners.iter().map(|o| o.name()).collect::<Vec<_>>(), outs, mname, tape, msg),
+                                    json!({"context": src_txt, "owners": owners_json(owners), "outs": outs, "mode": mname,
+                                           "inputs": vals_json(iv), "seed": seed, "tape": tape, "kind": "global", "desc": prog.desc}),
+                                ),
+                            }
+                        }
+                        Which::ThreeParty => {
+                            for junk in b.junk.iter() {
+                                for ss in 0..b.seed_sets {
+                                    let seeds = [seed + 1000 * ss as u64, seed + 7 + 2000 * ss as u64, seed + 13 + 3000 * ss as u64];
+                                    let res = one_three(r, &plan, &types, owners, &outs, iv, expected, &out_t, seeds, tape, junk, prog);
+                                    r.count("evaluations", 1);
+                                    match res {
+                                        Ok(true) => r.count("allowed_aborts", 1),
+                                        Ok(false) => {}
+                                        Err((kind, msg)) => r.violation(
+                                            &format!("{}:{}:{}", id, prog.class, kind),
+                                            &format!("{} | owners {:?} outs {:?} mode {} tape {} junk {}: {}", prog.desc, owners.iter().map(|o| o.name()).collect::<Vec<_>>(), outs, mname, tape, junk, msg),
+                                            json!({"context": src_txt, "owners": owners_json(owners), "outs": outs, "mode": mname,
+                                                   "inputs": vals_json(iv), "seeds": seeds, "tape": tape, "junk": junk, "kind": "three", "desc": prog.desc}),
+                                        ),
+                                    }
+                                }
+                            }
+                        }
+                    }
+                }
+            }
+            if r.want_sample() {
+                r.sample(json!({"program": prog.desc, "owners": owners_json(owners), "outs": outs, "mode": mname,
+                    "compiled_nodes": plan.nodes.len(), "prf_nodes": n_prf,
+                    "first_input": types.iter().zip(cases[0].0.iter()).map(|(t, v)| vals::show(v, t)).collect::<Vec<_>>(),
+                    "expected": vals::show(&cases[0].1, &out_t)}));
+            }
+        }
+    }
+}
+
+/// E1 conformance: the harness walker must agree with the library's own graph evaluator (same seed), and a
+/// three-party run in which every party is given all real values and the same seed must reproduce the global values.
+fn conformance(r: &Report, compiled: &Context, plan: &Plan, types: &[Type], owners: &[Owner], iv: &[Value]) {
+    let gi = mpcx::global_inputs(types, owners, iv, &mut || 0x3C);
+    let mut ev = new_eval(5);
+    let walker = run_global(plan, &gi, &mut ev, &mut RealRandomness);
+    let mut ev2 = new_eval(5);
+    let g = compiled.get_main_graph().unwrap();
+    let gi2 = gi.clone();
+    let lib = catch(move || ev2.evaluate_graph(g, gi2));
+    match (walker, lib) {
+        (Ok(vs), Ok(Ok(v))) => {
+            if vs[plan.output] != v {
+                println!("MACHINERY-ERROR executor and Evaluator::evaluate_graph disagree (same seed)");
+                std::process::exit(2);
+            }
+            // three-party run with full knowledge and identical seeds reproduces the global values at every node
+            let pi = [gi.clone(), gi.clone(), gi.clone()];
+            let tr = mpcx::eval_compiled_three(plan, &pi, [5, 5, 5], &mut RealRandomness);
+            for p in 0..3 {
+                for (i, pv) in tr.vals[p].iter().enumerate() {
+                    match pv.val() {
+                        Some(x) if x == vs[i] => {}
+                        _ => {
+                            println!("MACHINERY-ERROR three-party executor with full knowledge diverges from global run at node {}", i);
+                            std::process::exit(2);
+                        }
+                    }
+                }
+            }
+            r.count("traces_validated_against_impl", 2);
+        }
+        (Err(_), Ok(Err(_))) | (Err(_), Err(_)) => {
+            r.count("conformance_both_fail", 1);
+        }
+        _ => {
+            println!("MACHINERY-ERROR executor and Evaluator::evaluate_graph disagree on success/failure");
+            std::process::exit(2);
+        }
+    }
+}
+
+type CaseResult = Result<bool, (String, String)>;
+
+#[allow(clippy::too_many_arguments)]
+fn one_global(
+    plan: &Plan,
+    types: &[Type],
+    owners: &[Owner],
+    outs: &[u8],
+    iv: &[Value],
+    expected: &Value,
+    out_t: &Type,
+    seed: u64,
+    tape: &str,
+    prog: &Prog,
+) -> CaseResult {
+    let mut sm = SplitMix(seed ^ 0x5151);
+    let mut buf: Vec<u8> = vec![];
+    let mut share_bytes = move || {
+        if buf.is_empty() {
+            buf = sm.bytes(64);
+        }
+        buf.pop().unwrap()
+    };
+    let gi = mpcx::global_inputs(types, owners, iv, &mut share_bytes);
+    let mut oracle = tape_by_name(tape);
+    match mpcx::eval_compiled_global(plan, &gi, seed, oracle.as_mut()) {
+        Ok(v) => match mpcx::check_global_output(&v, expected, out_t, outs) {
+            Ok(()) => Ok(false),
+            Err(m) => Err(("wrong-output".into(), m)),
+        },
+        Err(m) => {
+            if let Some(a) = prog.allowed_abort {
+                if m.contains(a) {
+                    return Ok(true);
+                }
+            }
+            Err(("eval-error".into(), m))
+        }
+    }
+}
+
+#[allow(clippy::too_many_arguments)]
+fn one_three(
+    r: &Report,
+    plan: &Plan,
+    types: &[Type],
+    owners: &[Owner],
+    outs: &[u8],
+    iv: &[Value],
+    expected: &Value,
+    out_t: &Type,
+    seeds: [u64; 3],
+    tape: &str,
+    junk: &str,
+    prog: &Prog,
+) -> CaseResult {
+    let mut sm = SplitMix(seeds[0] ^ 0x5151);
+    let mut buf: Vec<u8> = vec![];
+    let mut share_bytes = move || {
+        if buf.is_empty() {
+            buf = sm.bytes(64);
+        }
+        buf.pop().unwrap()
+    };
+    let mut js = junk_source(junk, seeds[1]);
+    let pi = mpcx::party_inputs(types, owners, iv, &mut share_bytes, js.as_mut());
+    let mut oracle = tape_by_name(tape);
+    let run = mpcx::eval_compiled_three(plan, &pi, seeds, oracle.as_mut());
+    r.count("transitions", run.party_steps);
+    r.count("messages_delivered", run.sends);
+    r.count("states", 1);
+    if !run.poisoned_sends.is_empty() {
+        r.count("runs_with_poisoned_send", 1);
+    }
+    match mpcx::check_three_output(plan, &run, expected, out_t, outs) {
+        Ok(()) => Ok(false),
+        Err(m) => {
+            if let Some(a) = prog.allowed_abort {
+                if m.contains(a) {
+                    return Ok(true);
+                }
+            }
+            let kind = if m.contains("cannot compute") { "party-cannot-compute" } else { "wrong-at-party" };
+            Err((kind.into(), m))
+        }
+    }
+}
+
+/// covering set of owner vectors for two inputs (every status in every position, equal and different parties)
+pub fn covering_owners(n: usize) -> Vec<Vec<Owner>> {
+    use Owner::*;
+    let two = vec![
+        vec![P(0), P(1)],
+        vec![P(1), P(2)],
+        vec![P(2), P(0)],
+        vec![P(1), P(1)],
+        vec![Shared, P(2)],
+        vec![P(0), Shared],
+        vec![Public, P(0)],
+        vec![P(1), Public],
+        vec![Shared, Shared],
+        vec![Public, Public],
+    ];
+    match n {
+        2 => two,
+        1 => Owner::ALL.iter().map(|o| vec![*o]).collect(),
+        _ => {
+            let mut v = vec![];
+            for (k, t) in two.iter().enumerate() {
+                let mut w = t.clone();
+                while w.len() < n {
+                    w.push(Owner::ALL[(k + w.len()) % 5]);
+                }
+                v.push(w);
+            }
+            v
+        }
+    }
+}
+
+/// Generated programs. quick: depth 1 on every family (families 0,1 with all owner vectors, the others with the
+/// covering set), planner-relevant depth 2 on families 0,1 with 4 owner vectors and 3 output subsets.
+/// thorough: depth 1 full cross everywhere, planner-relevant depth 2 full cross everywhere.
+pub fn generated_programs(r: &Report) -> Vec<Prog> {
+    let thorough = r.tier.thorough();
+    let mut progs = vec![];
+    let mut seen: HashSet<String> = HashSet::new();
+    for (fi, leaves) in gen::families(thorough).into_iter().enumerate() {
+        let base = Recipe { leaves: leaves.clone(), steps: vec![] };
+        let n_inputs = base.input_types().len();
+        let base_types: Vec<Type> = leaves
+            .iter()
+            .map(|l| match l {
+                Leaf::Input(t) => t.clone(),
+                Leaf::Const(t, _) => t.clone(),
+            })
+            .collect();
+        let d1 = gen::extend(&base, &base_types);
+        for (rec, tys) in d1.iter() {
+            if seen.insert(rec.desc()) {
+                let mut p = recipe_prog(rec);
+                if !thorough && fi >= 2 {
+                    p.owners = Some(covering_owners(n_inputs));
+                }
+                progs.push(p);
+                r.count("programs_depth1", 1);
+            }
+            if !rec.steps[0].is_multiplicative() || (!thorough && fi >= 2) {
+                continue;
+            }
+            for (rec2, _) in gen::extend(rec, tys) {
+                if seen.insert(rec2.desc()) {
+                    let mut p = recipe_prog(&rec2);
+                    if thorough && n_inputs >= 3 {
+                        p.owners = Some(covering_owners(n_inputs));
+                    }
+                    if !thorough {
+                        let c = covering_owners(n_inputs);
+                        p.owners = Some(vec![c[0].clone(), c[3].clone(), c[4].clone(), c[7].clone()]);
+                        p.outs = Some(vec![vec![], vec![1], vec![0, 2]]);
+                    }
+                    progs.push(p);
+                    r.count("programs_depth2", 1);
+                }
+            }
+        }
+    }
+    progs
+}
+
+pub fn run_engine(r: &Report, which: Which, progs: Vec<Prog>, b: &Budget) {
+    // tasks = (program, owner vector); every task rebuilds its own context (contexts are not shared across threads)
+    let mut tasks: Vec<(usize, Vec<Owner>)> = vec![];
+    for (pi, p) in progs.iter().enumerate() {
+        let n_inputs = match (p.build)() {
+            Ok(c) => mpcx::input_types(&c).len(),
+            Err(_) => continue,
+        };
+        r.count("programs", 1);
+        let ovs = p.owners.clone().unwrap_or_else(|| mpcx::owner_vectors(n_inputs));
+        for ov in ovs {
+            tasks.push((pi, ov));
+        }
+    }
+    r.count("tasks", tasks.len() as u64);
+    if std::env::var("VERIF_DRY").is_ok() {
+        eprintln!("programs={} tasks={} d1={} d2={}", r.get("programs"), tasks.len(), r.get("programs_depth1"), r.get("programs_depth2"));
+        return;
+    }
+    if let Ok(m) = std::env::var("VERIF_MAX_TASKS") {
+        tasks.truncate(m.parse().unwrap_or(usize::MAX));
+    }
+    tasks.par_iter().for_each(|(pi, ov)| {
+        run_task(r, which, &progs[*pi], ov, b);
+    });
+}
+
+pub fn class_histogram(progs: &[Prog]) -> J {
+    let mut h: BTreeMap<String, u64> = BTreeMap::new();
+    for p in progs {
+        *h.entry(p.class.clone()).or_insert(0) += 1;
+    }
+    json!(h)
+}
+
+pub fn run(r: &Report) -> i32 {
+    let thorough = r.tier.thorough();
+    let mut progs = generated_programs(r);
+    progs.extend(super::curated::programs(thorough));
+    r.extra("program_classes", class_histogram(&progs));
+    let b = Budget {
+        max_inputs: if thorough { 12 } else { 5 },
+        extra_seeds: 2,
+        tapes: vec!["prf-zero", "prf-ones"],
+        junk: vec![],
+        seed_sets: 1,
+    };
+    run_engine(r, Which::Global, progs, &b);
+    r.finish(
+        "exploration",
+        "programs: every builder-accepted recipe of depth 1 (and depth 2 whose first step is multiplicative/conversion; thorough: all depth 2) over the MPC-compilable alphabet on 7-10 leaf families, plus curated sort/permutation/join/custom-op/call-iterate programs; crossed with all 5^n owner vectors x 8 output subsets x 3 inline modes (modes with identical compiled context evaluated once) x whole-array boundary input vectors x {3 seeds, PRF-all-zero, PRF-all-ones tapes}; oracle = SimpleEvaluator on the source graph; distinct = distinct compiled contexts (hash of serialization)",
+        true,
+        &[
+            "the plaintext evaluator is the reference (tied to documented semantics by C10)",
+            "program depth <= 2, <= 3 inputs, shapes <= 2x2 (2x8 for bit strings)",
+            "integer inputs from a boundary alphabet, not all values",
+        ],
+        &["evaluations", "programs", "distinct_compiled_contexts", "compiled_contexts_with_prf_masks", "traces_validated_against_impl"],
+    )
+}
+
+pub fn replay(r: &Report, rec: &J) -> i32 {
+    replay_case(r, &rec["case"])
+}
+
+pub fn replay_case(_r: &Report, case: &J) -> i32 {
+    let ctx: Context = match serde_json::from_str(case["context"].as_str().unwrap_or("")) {
+        Ok(c) => c,
+        Err(e) => {
+            println!("cannot load context: {}", e);
+            return 2;
+        }
+    };
+    let owners = owners_from_json(&case["owners"]);
+    let outs: Vec<u8> = case["outs"].as_array().unwrap().iter().map(|x| x.as_u64().unwrap() as u8).collect();
+    let mname = case["mode"].as_str().unwrap();
+    let mode = mpcx::modes().into_iter().find(|m| m.0 == mname).unwrap().1;
+    let compiled = match mpcx::compile(&ctx, &owners, &outs, &mode) {
+        Ok(c) => c,
+        Err(e) => {
+            println!("compile: {}", e);
+            return if e.starts_with("panic") { 1 } else { 0 };
+        }
+    };
+    if case["kind"] == "compile" {
+        println!("compile succeeds");
+        return 0;
+    }
+    let plan = Plan::of_context(&compiled).unwrap();
+    let types = mpcx::input_types(&ctx);
+    let out_t = mpcx::output_type(&ctx);
+    let iv = vals_from_json(&case["inputs"]);
+    let expected = mpcx::eval_plain(&ctx, &iv, 1).unwrap();
+    println!("inputs   : {}", json!(types.iter().zip(iv.iter()).map(|(t, v)| vals::show(v, t)).collect::<Vec<_>>()));
+    println!("expected : {}", vals::show(&expected, &out_t));
+    let tape = case["tape"].as_str().unwrap_or("real");
+    let prog = Prog {
+        desc: "replay".into(),
+        class: "replay".into(),
+        build: Arc::new(|| Err("".into())),
+        owners: None,
+        outs: None,
+        inputs: None,
+        allowed_abort: None,
+    };
+    let res = if case["kind"] == "global" {
+        one_global(&plan, &types, &owners, &outs, &iv, &expected, &out_t, case["seed"].as_u64().unwrap(), tape, &prog)
+    } else {
+        let s: Vec<u64> = case["seeds"].as_array().unwrap().iter().map(|x| x.as_u64().unwrap()).collect();
+        let rr = Report::new("replay", crate::common::Tier::Quick, 0);
+        one_three(&rr, &plan, &types, &owners, &outs, &iv, &expected, &out_t, [s[0], s[1], s[2]], tape, case["junk"].as_str().unwrap_or("zeros"), &prog)
+    };
+    match res {
+        Ok(_) => {
+            println!("observed : matches expected (violation does not reproduce)");
+            0
+        }
+        Err((k, m)) => {
+            println!("observed : {} - {}", k, m);
+            1
+        }
+    }
+}
+
+#[allow(dead_code)]
+fn is_input(op: &Operation) -> bool {
+    op.is_input()
 }
